@@ -35,6 +35,10 @@ SCRIPTS = [
     ["name s9", "version 1.0", "", "float x = {a}+{b}*{c}", "float y = {b}-{a}", "Dgate(x*y, y/x) | %(m)s"],
     ["name s10", "version 1.0", "", "Dgate({e}*exp({x})+{p}, sin({n})*{i}) | %(m)s"],
     ["name s11", "version 1.0", "", "for int i in 0:2", "    Dgate({a}*i+{b}, k={b}*{c}) | i"],
+    ["name s13", "version 1.0", "", "Dgate({lambda_1}-2*{mu}, {mu}/{lambda_1}) | %(m)s", "Sgate({mu}**{lambda_1}) | %(m)s"],
+    ["name s14", "version 1.0", "", "MeasureX | 2", "MeasureX | 10", "Dgate(q2-2*q10, k=q10/q2) | %(m)s", "Zgate(q10**2-q2) | %(m)s"],
+    ["name s15", "version 1.0", "", "float array A[2, 2] =", "    {w}", "Gate(A, k={x}-{y}*{z}) | %(m)s"],
+    ["name s16", "version 1.0", "", "Dgate(arcsin({a})*{b}-{c}, -({a}**2)+{b}) | %(m)s"],
     ["name s12", "version 1.0", "target X8 (shots=%(i)s)", "", "Dgate(%(f)s, %(f)s) | %(m)s", "Vac | [%(m)s, %(m)s]"],
 ]
 
